@@ -89,6 +89,10 @@ def gen_stage(rng, kind):
             return ['filter', rng.choice(INT_PREDS + [None])], 'int'
         if c == 'slice':
             a = rng.randint(0, 3)
+            if rng.random() < 0.2:
+                # open-ended forms, as for itertools.islice: (start, None) skips, it does not stop
+                return rng.choice([['slice', a, None], ['slice', a, None, None], ['slice', a, None, rng.randint(1, 3)],
+                                   ['slice', None, a + 2]]), 'int'
             return ['slice', a, a + rng.randint(0, 5)] + ([rng.randint(1, 3)] if rng.random() < 0.4 else []), 'int'
         if c == 'limit':
             return ['limit', rng.randint(0, 6)], 'int'
@@ -142,6 +146,11 @@ def gen_case(seed, tier):
         # two map stages in a row, the first of which yields glom's SKIP / STOP: a map stage hands on
         # whatever its function returns (only the Iter's own subspec interprets SKIP / STOP)
         chain['stages'] += [['map', rng.choice(['skip_odd', 'stop_ge5'])], ['map', 'ident']]
+        if chain['terminal'] and chain['terminal'][0] == 'first':
+            chain['terminal'] = None
+    elif mode in ('prefix', 'alternate', 'abandon') and chain['kind'] == 'int' and rng.random() < 0.08:
+        # elements become STRINGS, then flatten(): a string is taken apart like any other iterable
+        chain['stages'] += [['map', 'tostr'], ['flatten']]
         if chain['terminal'] and chain['terminal'][0] == 'first':
             chain['terminal'] = None
     if mode == 'resume':
@@ -204,7 +213,7 @@ def _kind_after(st, kind):
     if n == 'flatten':
         return 'int'
     if n == 'map':
-        if st[1] == 'spawn':
+        if st[1] in ('spawn', 'tostr'):
             return 'lazyseq'
         if st[1] in SEQ_MAPS_INT:
             return 'int'
